@@ -511,3 +511,91 @@ func vC03TwoFilesOnce() {
 	vAssert(vBytesEq(gotA, srcA) && vBytesEq(gotB, srcB), "both files equal their sources")
 	vCover("C03 two files complete")
 }
+
+// ---------------------------------------------------------------------------------------------
+// C15 (data stream): after a well-formed header and FileBegin, the data stream carries N arbitrary
+// bytes. The receiver must end with an error or success - no panic, no goroutine left waiting for
+// input that has ended, no buffer sized by a hostile FileBegin out of proportion to what arrived.
+func H_C15_datastream() {
+	size := []int{1, 5}[vChoice("sizeIdx", 2)]
+	item := manifest.FileItem{RelPath: "f", Size: int64(size), ID: "id"}
+	m := manifest.Manifest{Items: []manifest.FileItem{item}, TotalBytes: int64(size), FileCount: 1}
+	key := fileKeyForItem(item)
+	cs := uint32(4)
+	switch vChoice("chunkSizeKind", 3) {
+	case 1:
+		cs = 0
+		vTag("chunkSize=0")
+	case 2:
+		cs = vU32("hugeChunkSize")
+		vAssume(cs > 1<<27)
+		vTag("chunkSize=huge")
+	}
+	control := &vMemStream{buf: vControlBytes(m)}
+	_ = writeDataStreams(control, DataStreams{Count: 1})
+	// FileBegin written field by field: a hostile peer is not bound by the encoder's checks
+	control.buf = append(control.buf, controlTypeFileBegin)
+	control.buf = binary.BigEndian.AppendUint16(control.buf, 1)
+	control.buf = append(control.buf, 'f')
+	control.buf = binary.BigEndian.AppendUint64(control.buf, uint64(size))
+	control.buf = binary.BigEndian.AppendUint32(control.buf, cs)
+	control.buf = binary.BigEndian.AppendUint64(control.buf, key)
+	control.buf = append(control.buf, HashAlgCRC32C, 0, 0, 0, 0, 0, 0, 0, 0, 0, 0, 0, 0)
+	_ = writeFileEnd(control, FileEnd{StreamID: key})
+	_ = writeControlEnd(control)
+	n := []int{0, 1, 19, 20, 21, 24, 26}[vChoice("nIdx", 7)]
+	raw := vBytes("data", n)
+	if n >= 8 && vBool("rightKey") {
+		binary.BigEndian.PutUint64(raw[0:8], key) // otherwise almost every frame names an unknown file
+	}
+	data := &vMemStream{buf: raw}
+	conn := &vScriptConn{streams: []Stream{control, data}}
+	mark := vAllocMark()
+	_, err := RecvManifestMultiStream(vContext("ctx", false), conn, vTempDir()+"/out", Options{NoRootDir: true, Resume: vBool("resume")})
+	vAssert(vAllocSince(mark) <= vAllocSlack+2*uint64(n+len(control.buf)), "allocation proportional to the bytes received")
+	if err != nil {
+		vCover("C15 datastream: rejected")
+	} else {
+		vCover("C15 datastream: accepted")
+	}
+}
+
+// H_C15_frame: one frame for the announced file (right key), with arbitrary index, length, CRC and up
+// to 5 payload bytes, after a FileBegin whose chunk size is 4, 0 or huge; the receiver's main loop may
+// be preempted once at a select, so that the frame can be processed between two control records.
+func H_C15_frame() {
+	size := []int{1, 5}[vChoice("sizeIdx", 2)]
+	item := manifest.FileItem{RelPath: "f", Size: int64(size), ID: "id"}
+	m := manifest.Manifest{Items: []manifest.FileItem{item}, TotalBytes: int64(size), FileCount: 1}
+	key := fileKeyForItem(item)
+	cs := uint32(4)
+	if vBool("chunkSizeZero") {
+		cs = 0
+		vTag("chunkSize=0")
+	}
+	control := &vMemStream{buf: vControlBytes(m)}
+	_ = writeDataStreams(control, DataStreams{Count: 1})
+	control.buf = append(control.buf, controlTypeFileBegin)
+	control.buf = binary.BigEndian.AppendUint16(control.buf, 1)
+	control.buf = append(control.buf, 'f')
+	control.buf = binary.BigEndian.AppendUint64(control.buf, uint64(size))
+	control.buf = binary.BigEndian.AppendUint32(control.buf, cs)
+	control.buf = binary.BigEndian.AppendUint64(control.buf, key)
+	control.buf = append(control.buf, HashAlgCRC32C, 0, 0, 0, 0, 0, 0, 0, 0, 0, 0, 0, 0)
+	_ = writeFileEnd(control, FileEnd{StreamID: key})
+	_ = writeControlEnd(control)
+	hdr := make([]byte, dataChunkHeaderLen)
+	binary.BigEndian.PutUint64(hdr[0:8], key)
+	binary.BigEndian.PutUint32(hdr[8:12], vU32("index"))
+	binary.BigEndian.PutUint32(hdr[12:16], vU32("length"))
+	binary.BigEndian.PutUint32(hdr[16:20], vU32("crc"))
+	data := &vMemStream{buf: append(hdr, vBytes("payload", []int{0, 1, 5}[vChoice("payloadLenIdx", 3)])...)}
+	data.gateAt, data.gateDelay = 0, 0
+	conn := &vScriptConn{streams: []Stream{control, data}}
+	_, err := RecvManifestMultiStream(vContext("ctx", false), conn, vTempDir()+"/out", Options{NoRootDir: true, Resume: vBool("resume")})
+	if err != nil {
+		vCover("C15 frame: rejected")
+	} else {
+		vCover("C15 frame: accepted")
+	}
+}
